@@ -347,7 +347,7 @@ def _unpack_simple_filter(
     else:
         filter_type = None
 
-    attribute = current_view[:attribute_end].tobytes().decode("utf-8")
+    attribute = current_view[:attribute_end].tobytes().decode("utf-8", errors="surrogateescape")
     if filter_type != ":" and not _ATTRIBUTE_PATTERN.match(attribute):
         raise FilterSyntaxError(
             "Filter attribute is invalid",
